@@ -111,10 +111,10 @@ def extrap_calls(api, tr, variant):
         calls += [("richardson", lambda: api["richardson"](c, E, s), True), ("richardson:no-stderr", lambda: api["richardson"](c, E), False),
                   ("richardson_analytical", lambda: api["richardson_analytical"](c, E, s), True)]
     elif f == "extrapolation":
-        calls += [("extrapolation:order=%d" % k if k < 5 else "extrapolation:high-order:n=%d" % n, lambda: api["extrapolation"](c, E, s, k), True)]
+        calls += [("extrapolation:order=%d" % k if k < 4 else "extrapolation:high-order:n=%d" % n, lambda: api["extrapolation"](c, E, s, k), True)]
         if k == n - 1:
-            calls += [("extrapolation:default-order" if k < 5 else "extrapolation:high-order:n=%d:default" % n, lambda: api["extrapolation"](c, E, s), True),
-                      ("extrapolation:no-stderr" if k < 5 else "extrapolation:high-order:n=%d:no-stderr" % n, lambda: api["extrapolation"](c, E), False)]
+            calls += [("extrapolation:default-order" if k < 4 else "extrapolation:high-order:n=%d:default" % n, lambda: api["extrapolation"](c, E, s), True),
+                      ("extrapolation:no-stderr" if k < 4 else "extrapolation:high-order:n=%d:no-stderr" % n, lambda: api["extrapolation"](c, E), False)]
     elif f == "diis":
         calls += [("diis", lambda: api["diis"](c, E, s), True), ("diis:no-stderr", lambda: api["diis"](c, E), False)]
     elif f == "richardson_exp":
@@ -159,6 +159,9 @@ def extrap_compare(api, tr, variant, sink):
                 sink.violation(label + ":shape", "expected a scalar energy without stderr, got %r" % (got,), case)
                 continue
             e, err = float(got), None
+        if expo and label.startswith("richardson_exp") and abs(e - E[0]) <= 1e-2 * abs(e_exact - E[0]):
+            # outcome class: the exponent search ran away (t^k -> 0), the first energy comes back unextrapolated
+            label = "richardson_exp:exponent-search-diverged"
         if not abs(e - e_exact) <= tol * scale:
             sink.violation("%s:energy" % label, "%s(c=%s, E=%s) = %.12g, exact %s = %.12g" % (
                 label, list(args[0]), list(args[1]), e, tr["e"], e_exact), case)
@@ -542,7 +545,7 @@ def part_roto(chk):
     rmod = roto_module()
     nviol = len(chk.violations)
     rng = random.Random(chk.seed + 11)
-    plan = [(2, 10, "0, 1, 2, 3", "1, 2, 3, 4")] if chk.quick else [(2, 40, "0, 1, 2, 3, 4", "1, 2, 3, 4, 5"), (3, 12, "1, 2, 3", "1, 2, 4")]
+    plan = [(2, 10, "0, 1, 2, 3", "1, 2, 3, 4")] if chk.quick else [(2, 40, "0, 1, 2, 3, 4", "1, 2, 3, 4, 5"), (3, 8, "1, 3", "1, 4")]
     allgroups = []
     for n, count, iters, ftols in plan:
         objs = gen_objectives(rng, n, count)
